@@ -530,3 +530,44 @@ func H_C06_codetrail(form, _ int) {
 	check(vsame(normHTML(got), normHTML([]byte(want))), "C06.code-trailing-blank")
 	vdigest(got)
 }
+
+
+// H_C06_verbatim_in(k, form): "code block contents come out verbatim" inside
+// containers: a fenced code block with one content line of k free bytes (any byte but
+// NUL and line endings; not starting with a backtick, not ending in a space or tab so
+// that the line is not blank) inside a bullet item (form 0), a block quote (1), an
+// ordered item (2) and a quote inside a bullet item (3). In particular a TAB that
+// begins the content stays a TAB: it starts exactly where the container's prefix ends
+// and is not "partially consumed" in the sense of CommonMark 0.30 section 2.2.
+func H_C06_verbatim_in(k, form int) {
+	first := []string{"- ", "> ", "1. ", "- > "}[form]
+	cont := []string{"  ", "> ", "   ", "  > "}[form]
+	open := []string{"<ul><li>", "<blockquote>", "<ol><li>", "<ul><li><blockquote>"}[form]
+	cl := []string{"</li></ul>", "</blockquote>", "</li></ol>", "</blockquote></li></ul>"}[form]
+	var doc, want []byte
+	doc = append(doc, first+"```\n"+cont...)
+	want = append(want, open+"<pre><code>"...)
+	for i := 0; i < k; i++ {
+		c := nondetByte()
+		assume(classOK(c, 'X'))
+		assume(c != 0)
+		if i == 0 {
+			assume(c != '`')
+		}
+		if i == k-1 {
+			assume(vand(c != ' ', c != '\t'))
+		}
+		doc = append(doc, c)
+		want = escText(want, c)
+	}
+	doc = append(doc, "\n"+cont+"```\n"...)
+	want = append(want, "\n</code></pre>"+cl...)
+	blocks, refs := Parse(cloneBytes(doc))
+	got := renderWith(&HTMLRenderer{ReferenceMap: refs}, blocks)
+	if !vsame(normHTML(got), normHTML(want)) {
+		vnote("doc=" + string(doc))
+		vnote("got=" + string(got))
+	}
+	check(vsame(normHTML(got), normHTML(want)), "C06.code-verbatim.container")
+	vdigest(got)
+}
